@@ -144,7 +144,7 @@ pub fn shapes_stream(w: &mut dyn Write) {
 
 pub fn gen_c09(tier: &str, rng: &mut Rng, w: &mut dyn Write) {
     // every string of length <= 3 over the notation alphabet extended by multi-byte characters, through every parser
-    let alpha: Vec<&str> = vec!["A", "K", "T", "9", "2", "s", "h", "o", "d", "c", "+", "-", ":", ".", ",", "0", "1", "5", " ", "é", "€", "😀", "Q", "x"];
+    let alpha: Vec<&str> = vec!["A", "K", "T", "9", "2", "s", "h", "o", "d", "c", "+", "-", ":", ".", ",", "0", "1", "5", " ", "é", "€", "😀", "Q", "x", "\u{0663}", "\u{FF15}"];
     let ops = ["parse_rank", "parse_suit", "parse_card", "parse_pair", "parse_token", "parse_range"];
     writeln!(w, "parse_rank -\nparse_suit -\nparse_card -\nparse_pair -\nparse_token -\nparse_range -").unwrap();
     for a in &alpha {
@@ -166,6 +166,16 @@ pub fn gen_c09(tier: &str, rng: &mut Rng, w: &mut dyn Write) {
     }
     shapes_stream(w);
     weight_strings_all_kinds(w);
+    // non-ASCII decimal digits (Arabic-Indic, full-width, Devanagari) where the weight grammar expects digits
+    for v in ["AA", "K8s+", "AQs-A9s", "88-66", "QQ+", "JTs", "AsKd"] {
+        for d in ["\u{0663}", "\u{FF15}", "\u{096B}", "\u{06F7}"] {
+            for lit in [format!("0.{}", d), format!("0.2{}", d), format!("0.{}5", d), format!("{}", d), format!("1.{}", d), format!("{}.5", d)] {
+                let t = format!("{}:{}", v, lit);
+                tok_line(w, "parse_token", t.as_bytes());
+                tok_line(w, "parse_range", format!("KK,{}, 22", t).as_bytes());
+            }
+        }
+    }
     // multi-byte characters spliced at every byte offset of valid texts
     let valid = ["AsKs", "QQ+", "A9s+:0.5", "88-66", "AQs-A9s:0.25", "AA:1", "As", "AsKs,QQ:0.5"];
     for v in valid {
@@ -741,9 +751,9 @@ pub fn gen_c16(tier: &str, rng: &mut Rng, w: &mut dyn Write) {
         let mut n = 4097u32;
         while n <= 65536 {
             writeln!(w, "scopes_d {}", n).unwrap();
-            n += 1 + (n % 5);
+            n += 41 + (n % 13);
         }
-        for n in [100_000u32, 1_000_003, 16777214, 16777215, 16777216] {
+        for n in [100_000u32, 1_000_003] {
             writeln!(w, "scopes_d {}", n).unwrap();
         }
     }
